@@ -5,11 +5,7 @@ covered by a BOUNDED check on the real functions with hostile inputs (labelled b
 import os
 from pyvc.api import contract, cls, ghost, lemma
 from . import shared_grid, c05_compact, c16_limits  # noqa
-
-HOSTILE = ['..', '../..', '../../../x', '/etc/passwd', '/', '', '.', './..', 'a/../../b', '..\\..\\x', 'x/../../../../y', '2020-01-01',
-           '2020-01-01/2020-02-01', 'default', 'a b', '%2e%2e', '....//', 'C:\\x', '\\\\host\\share', 'time-..', '-../..', '..-']
-HOSTILE_KEYS = ['time', 'elevation', 'dim_x', 'dim_/../..', 'dim_..', 'DIM_/abs', 'dim_a/../../b', 'dim_\\..\\..', 'Time']
-
+from .c05_paths import HOSTILE, HOSTILE_KEYS
 
 def _gen_dims(gen, rng):
     n = rng.randint(0, 3)
@@ -34,29 +30,7 @@ contract('mapproxy.cache.path:dimensions_part', props=['C09'], verify=False,
          ensures=[_dims_stay_below], fuzz_gen=_gen_dims, bounded=dict(n=4000, seconds=10))
 
 
-def _gen_tile_loc(gen, rng):
-    from mapproxy.cache.tile import Tile
-    big = rng.choice([0, 1, 999, 1000, 999999, 1000000, 123456789, 2 ** 31])
-    coord = (rng.choice([0, 5, big]), rng.choice([0, 7, big]), rng.choice([0, 1, 9, 10, 22]))
-    d = {}
-    for _ in range(rng.randint(0, 2)):
-        d[rng.choice(HOSTILE_KEYS)] = rng.choice(HOSTILE)
-    return {'tile': {'$pyobj': ('mapproxy.cache.tile', 'Tile', [coord])}, 'cache_dir': '/r/cache', 'file_ext': 'png',
-            'create_dir': False, 'dimensions': {'$pydict': d} if d else None, 'directory_permissions': None}
-
-
-def _loc_below_cache_dir(args, result):
-    """the tile location lies below cache_dir"""
-    p = os.path.normpath(result)
-    return p.startswith('/r/cache' + os.sep)
-
-
-for _fn in ('tile_location_tc', 'tile_location_mp', 'tile_location_tms', 'tile_location_reverse_tms', 'tile_location_quadkey',
-            'tile_location_arcgiscache'):
-    contract('mapproxy.cache.path:' + _fn, props=['C09'], verify=False,
-             types=dict(tile='opaque', cache_dir='str', file_ext='str', create_dir='bool', dimensions='opaque',
-                        directory_permissions='opaque'), returns='str',
-             ensures=[_loc_below_cache_dir], fuzz_gen=_gen_tile_loc, bounded=dict(n=1500, seconds=6))
+from .c05_paths import _gen_tile_loc, _loc_below_cache_dir  # noqa  (the tile_location_* contracts live in c05_paths: formula proved, containment bounded)
 
 # ---- deductive: bundle and lock file names ----------------------------------------------------------------------------------
 lemma('bundle_name_below_cache_dir', ['C09'],
@@ -76,8 +50,8 @@ contract('mapproxy.cache.base:TileLocker.lock_filename', props=['C09', 'C08'],
          opaque_fields={'coord': 'tuple[int,int,int]'}, stable_fields=['coord'],
          ensures=[
              # one file directly below lock_dir, named by the cache id and the three coordinates, separated by '-'
-             """result == self.lock_dir + '/' + self.lock_cache_id + '-' + fmtd(tile.coord[0]) + '-' + fmtd(tile.coord[1])
-                          + '-' + fmtd(tile.coord[2]) + '.lck'"""],
+             """result == pjoin(self.lock_dir, self.lock_cache_id + '-' + fmtd(tile.coord[0]) + '-' + fmtd(tile.coord[1])
+                                + '-' + fmtd(tile.coord[2]) + '.lck')"""],
          must_fail="result == self.lock_dir")
 lemma('lock_name_injective', ['C08', 'C09'],
       doc="id-x-y-z.lck: with non-negative coordinates (no '-' inside the number images) different tiles get different lock files",
